@@ -62,6 +62,9 @@ func AddStamp(in []*Stamp, s *Stamp) []*Stamp {
 		return []*Stamp{s}
 	}
 	for _, v := range in {
+		if v == nil {
+			continue
+		}
 		if v.Provider == s.Provider {
 			*v = *s // copy in place
 			return in
@@ -76,6 +79,9 @@ func GetStamp(in []*Stamp, provider cbc.Key) *Stamp {
 		return nil
 	}
 	for _, v := range in {
+		if v == nil {
+			continue
+		}
 		if v.Provider == provider {
 			return v
 		}
